@@ -60,7 +60,16 @@ class SafeText:
         return self.pa[fn.key]
 
     def text_param(self, fn: Func) -> Optional[str]:
+        """The parameter the summary speaks about: the text being produced (`new_source`) if there is one, else the first."""
+        if "new_source" in fn.posparams:
+            return "new_source"
         return fn.posparams[0] if fn.posparams else None
+
+    def text_arg(self, call: ast.Call, target: Func) -> Optional[ast.AST]:
+        p = self.text_param(target)
+        if p is None:
+            return None
+        return call_arg(call, target.posparams.index(p), p)
 
     def callee_status(self, call: ast.Call, fn: Func) -> Optional[Tuple[str, ast.AST]]:
         """(status of result w.r.t. text argument, the text argument expr) for calls of summarised functions."""
@@ -80,7 +89,10 @@ class SafeText:
         st = self.summary.get(target.key)
         if st is None:
             return None
-        return st, call.args[0]
+        arg = self.text_arg(call, target) if target is not self.func_chain and target is not self.wrapper else call.args[0]
+        if arg is None:
+            return None
+        return st, arg
 
     def _is_chain(self, call: ast.Call, fn: Func) -> bool:
         r = self.prog.resolve_call(call.func, fn.mod, fn)
